@@ -8,6 +8,7 @@ func init() {
 		Rules: []Rule{
 			{"R13.1", "datasets are merged only when names and types agree", ruleAppendComparesTypes},
 			{"R13.3", "every listed symbol of a query is visited", ruleRestrictionListFullyVisited},
+			{"R13.5", "the chunk buffer holds whole records of the bucket being scanned", ruleReadBufferWholeRecords},
 			// R13.2 (wrong error variable tested in executeQuery) was removed: the flagged branch is
 			// unreachable for every bucket the server can hold, so no failing input exists — by the
 			// task's definition a false alarm, not a finding (DESIGN.md §7).
@@ -21,6 +22,7 @@ func init() {
 			{"R14.1", "guarded write", ruleGuardedWrite},
 			{"R14.2", "validate everything before queueing anything", ruleValidateBeforeQueue},
 			{"R14.3", "coercion is total over the numeric types", ruleCoercionTotal},
+			{"R14.4", "the schema check gets (bucket shapes, data shapes) in that order", ruleSchemaCheckArgumentRoles},
 		},
 	})
 	register(&Property{
@@ -32,6 +34,8 @@ func init() {
 			{"R15.3", "schema limits validated before creation", ruleCreationValidated("schema")},
 			{"R15.5", "header text is copied into the whole slot", ruleHeaderFullSlotCopy},
 			{"R8.1", "no data write can land in the header", ruleSlotIndexPositive},
+			{"R30.4", "slot → offset arithmetic is 64-bit", ruleOffsetArithmetic64},
+			{"R18.8", "the header reader shares no package-level scratch state", ruleNoNewSharedPackageState},
 		},
 	})
 	register(&Property{
@@ -51,6 +55,7 @@ func init() {
 		Rules: []Rule{
 			{"R17.1", "Directory state is accessed under its lock", ruleCatalogLocking},
 			{"R17.2", "structural changes are serialised by the root lock; creation and registration stay together", ruleStructuralChangesSerialised},
+			{"R17.5", "adding a sub-directory drops the cached category set", ruleCategoryCacheInvalidated},
 		},
 	})
 	register(&Property{
@@ -65,6 +70,9 @@ func init() {
 			{"R17.2", "structural changes serialised", ruleStructuralChangesSerialised},
 			{"R18.5", "fixed-length slot visibility", ruleFixedSlotSingleWrite},
 			{"R18.6", "lazy header load runs only under its sync.Once", ruleLazyLoadOnce},
+			{"R18.7", "a buffered record write is not torn by a flush", ruleBufferedWriteNotTorn},
+			{"R18.8", "no new shared mutable package-level state in the request path", ruleNoNewSharedPackageState},
+			{"R28.6", "long-lived byte buffers do not escape", ruleScratchBufferDoesNotEscape},
 		},
 	})
 	register(&Property{
@@ -77,6 +85,7 @@ func init() {
 			{"R19.3", "push-down only narrows", rulePushdownGuarded},
 			{"R19.4", "BETWEEN maps to one lower and one upper comparison", ruleBetweenMapping},
 			{"R19.5", "float32 columns are compared in their own precision", ruleFilterComparesInColumnPrecision},
+			{"R19.6", "a predicate is unsatisfiable only when min is strictly above max", ruleEmptyRangeStrict},
 		},
 	})
 	register(&Property{
@@ -97,6 +106,7 @@ func init() {
 			{"R23.2", "aggregate registry is total and stateless", ruleAggRegistry},
 			{"R23.3", "empty input is handled before indexing", ruleEmptyInputHandled},
 			{"R23.4", "extremum accumulators are seeded from the input or the correct bound", ruleExtremumSeed},
+			{"R23.5", "running sums are kept in float64", ruleAccumulateInFloat64},
 		},
 	})
 	register(&Property{
@@ -106,6 +116,7 @@ func init() {
 		Rules: []Rule{
 			{"R24.1", "fresh records win over cached ones; aggregate write errors", ruleFreshWinsOverCache},
 			{"R24.2", "destination windows are aggregated from the whole window's base data", ruleAggregateFromWholeWindow},
+			{"R31.3", "window ends come from the calendar-aware functions, never from start + nominal duration", ruleNoNominalDurationArithmetic},
 		},
 	})
 	register(&Property{
@@ -117,6 +128,7 @@ func init() {
 			{"R10.1", "ticks decode keeps the seconds (R10.3) and codec agreement", ruleTicksScaleAgreement},
 			{"R25.3", "replicate exactly what was logged, after it is durable; replica decode = WAL decode", ruleReplicateWhatWasLogged},
 			{"R25.5", "each write set is placed with the year of its own file path", ruleReplicaYearFromOwnPath},
+			{"R28.6", "the bytes queued for the replicas are not backed by a reusable buffer", ruleScratchBufferDoesNotEscape},
 		},
 	})
 	register(&Property{
@@ -126,6 +138,7 @@ func init() {
 		Rules: []Rule{
 			{"R26.1", "the stream map is guarded; published channels are closed safely", ruleStreamMapGuarded},
 			{"R26.4", "the stream map key identifies one stream", ruleStreamKeyLossless},
+			{"R26.5", "the fan-out to the replicas is a blocking send to every replica", ruleFanOutBlocking},
 		},
 	})
 	register(&Property{
@@ -145,6 +158,7 @@ func init() {
 			{"R28.1", "serializer and parser agree on field order and widths; buffer accessors", ruleWALRecordLayoutAgreement},
 			{"R28.2", "no length is narrowed without a bound", ruleNoLossyNarrowing},
 			{"R28.5", "the schema encoding does not shorten names", ruleSchemaEncodingLossless},
+			{"R28.6", "TG bytes kept for decoding are not backed by a reusable read buffer", ruleScratchBufferDoesNotEscape},
 			// R28.3 (DSVToBytes error swallowed in serializeTG) removed: DSVToBytes cannot fail for
 			// the operand types it is given, so no failing input exists (DESIGN.md §7).
 		},
@@ -167,6 +181,7 @@ func init() {
 			{"R8.1", "slot index ≥ 1", ruleSlotIndexPositive},
 			{"R30.2", "one time-zone source", ruleOneTimezoneSource},
 			{"R30.3", "intraday slots are a function of absolute time (no wall-clock fields)", ruleIndexFromAbsoluteTime},
+			{"R30.4", "slot → offset arithmetic is 64-bit and never narrows", ruleOffsetArithmetic64},
 		},
 	})
 	register(&Property{
@@ -175,6 +190,8 @@ func init() {
 		NotCovered:  "exactly-once under concurrent writers; payload equality.",
 		Rules: []Rule{
 			{"R32.1", "every applied write is recorded and dispatched once; matching", ruleTriggerDispatch},
+			{"R18.8", "trigger matching keeps no package-level memo shared between matchers", ruleNoNewSharedPackageState},
+			{"R28.6", "records handed to the asynchronous triggers are not backed by a reusable buffer", ruleScratchBufferDoesNotEscape},
 		},
 	})
 	register(&Property{
@@ -183,6 +200,7 @@ func init() {
 		NotCovered:  "parsed values, time-zone conversion results.",
 		Rules: []Rule{
 			{"R33.1", "only EOF ends the read loop; parse failures are errors; chunk errors propagate", ruleCSVImport},
+			{"R33.5", "the loader's csv.Reader stays strict (no LazyQuotes, field count enforced)", ruleCSVReaderStrict},
 		},
 	})
 }
